@@ -1,6 +1,7 @@
 """C09: the compressibility correction implements Prandtl-Glauert and is exact at Mach 0."""
 import numpy as np
 from ..runner import job
+from .. import core
 from .. import gsx, term as S, spshim
 from ..surfaces import surface
 from .c01_components import cls, two_surfaces, T
@@ -153,6 +154,7 @@ def kernel_rotation(env):
     import openaerostruct.aerodynamics.eval_mtx as E
     xp = env.xp
     env.indicator_branch = 1
+    env.indicator_only = core.kernel_tol_mask          # only the documented |den| <= 1e-10 guard of the kernels is exempt
     a = env.var("alpha", ())
     Q = wind_matrix(env, a, 0 * a)
     r1, r2, r = env.var("r1", (3,)), env.var("r2", (3,)), env.var("r", (3,))
